@@ -7,12 +7,13 @@ PROPS = "C01 C02 C03 C04 C05 C06 C07 C08 C09 C10 C11 C12 C13 C14 C15 C17 C18 C19
 def one(diff):
     tmp = tempfile.mkdtemp(prefix="kzrefac-")
     try:
-        shutil.copytree("/repo/v2", tmp + "/v2")
+        # committed tree, not the working tree: seeds are applied to /repo transiently by other tools
+        subprocess.run("git -C /repo archive HEAD v2 | tar -x -C " + tmp, shell=True, check=True)
         r = subprocess.run(["patch", "-p2", "-s", "-f", "-d", tmp + "/v2", "-i", diff], capture_output=True, text=True)
         if r.returncode != 0:
             return diff, ["PATCH-FAILED " + r.stdout[:200]]
         bad = []
-        pr = subprocess.run(["/verif/bin/kzcheck", "-repo", tmp + "/v2", "-all"], capture_output=True, text=True)
+        pr = subprocess.run([os.environ.get("KZCHECK", "/verif/bin/kzcheck"), "-repo", tmp + "/v2", "-all"], capture_output=True, text=True)
         if pr.returncode != 0:
             for l in pr.stdout.splitlines():
                 if re.match(r"C\d+ exit=|\s+-> |\s*UNDECIDED", l):
